@@ -5,6 +5,7 @@ import impl
 import specgen
 from common import text
 
+EXTRA_COQ_FILES = ('GenFacts/SchemaOK.v', 'GenFacts/ConstantsOK.v')
 RULE = ('seeded random specifications over all 22 object types: attribute subsets by density 0/0.3/0.7/1, value multiplicities '
         '0,1,2,3,5,127,128,200, nested lists, units (str/Unit member, AttrSetup/dict), named and unnamed sets, repeated names; '
         'every EFLR body tapped before segmentation is (a) parsed by the strict component reader, (b) compared with the model '
